@@ -39,9 +39,9 @@ TIERS = {
     # depend on the machine's load; the number of exchanges actually executed is measured and reported.
     # floor: the least time the exchanges get even when the build (first build after a change of /repo, or waiting for
     # another check's cargo lock) or the model checker ate the budget - a slow start must not turn into a tool error
-    "quick": dict(per_class=1, pairs_hot=40, pairs_rest=40, group=8, mutants=["validate", "late_take"], tv_chunks=6, wall=165, reserve=35, floor=75,
+    "quick": dict(per_class=1, pairs_hot=40, pairs_rest=40, group=8, mutants=["validate", "late_take", "restore_fee_nonzero"], tv_chunks=6, wall=165, reserve=35, floor=75,
                   retry_late=0.9, retry_other=0.35),
-    "thorough": dict(per_class=1000, pairs_hot=100000, pairs_rest=700, group=8, mutants=["validate", "check_fees", "restore_fee", "restore_amount", "late_take"],
+    "thorough": dict(per_class=1000, pairs_hot=100000, pairs_rest=700, group=8, mutants=["validate", "check_fees", "restore_fee", "restore_fee_nonzero", "restore_amount", "late_take"],
                      tv_chunks=10, wall=1440, reserve=150, floor=400, retry_late=0.85, retry_other=0.6),
 }
 
